@@ -1,0 +1,37 @@
+//go:build verif
+
+// Contracts for the deductive checker in /verif (comment-only; compiled only with -tags verif).
+// Syntax: /verif/DESIGN.md section 2.4.
+package objects
+
+//@ func ValidateStrListBytes
+//@   props C17
+//@   ensures err == nil ==> 4 <= result0 && result0 <= len(b)
+//@   loop 1 invariant 4 <= offset && offset <= n && n == len(b) && 0 <= i
+//@   loop 1 decreases count - i
+
+//@ func ValidateBlockBytes
+//@   props C17
+//@   loop 1 invariant 4 <= off && off <= len(b) && 0 <= i
+//@   loop 1 decreases n - i
+
+//@ func (*StrListDecoder).ensureBufSize
+//@   props C17
+//@   requires cap(d.buf) >= 1 && n >= 0 && n <= 1099511627776
+//@   modifies d.buf
+//@   ensures cap(d.buf) >= n && cap(d.buf) >= old(cap(d.buf)) && len(d.buf) >= old(len(d.buf)) && cap(d.buf) >= 1
+//@   ensures cap(d.buf) <= max(old(cap(d.buf)), 2*n)
+//@   ensures d.buf == old(d.buf) || fresh(d.buf)
+//@   ensures allocated <= old(allocated) + 4*n
+//@   loop 1 invariant cap(d.buf) >= 1 && cap(d.buf) >= old(cap(d.buf)) && len(d.buf) >= old(len(d.buf))
+//@   loop 1 invariant cap(d.buf) <= max(old(cap(d.buf)), 2*n) && (d.buf == old(d.buf) || fresh(d.buf))
+//@   loop 1 invariant allocated <= old(allocated) + 2*cap(d.buf) && (cap(d.buf) == old(cap(d.buf)) ==> allocated == old(allocated))
+//@   loop 1 decreases n - cap(d.buf)
+
+//@ func (*StrListDecoder).Read
+//@   props C17 C18
+//@   requires cap(d.buf) >= 4 && len(d.buf) >= 4 && r != nil
+//@   modifies d.*, d.buf[:], d.strs[:]
+//@   loop 1 invariant cap(d.buf) >= 4 && len(d.buf) >= 4 && 0 <= i && i <= count && (d.buf == old(d.buf) || fresh(d.buf))
+//@   loop 1 invariant fresh(sl) || (reg(sl) == reg(old(d.strs)) && off(sl) == off(old(d.strs)) && cap(sl) == cap(old(d.strs)))
+//@   loop 1 decreases count - i
